@@ -451,7 +451,9 @@ func enumPathsOpts(fn *ssa.Function, limit, maxVisits int, opts InlineOpts) (pat
 					for _, a := range callArgs(x.Common()) {
 						at = append(at, s.term(a))
 					}
-					s.path.Events = append(s.path.Events, Event{"enter", fname(callee), ins})
+					if !isNewHelper(callee) { // a helper split out of this function is walked as if it were still here
+						s.path.Events = append(s.path.Events, Event{"enter", fname(callee), ins})
+					}
 					nf := enter(s, callee, at, binds, fr)
 					nf.call, nf.retB, nf.retI = x, b, i+1
 					run(s, callee.Blocks[0], nil, 0, nf)
